@@ -7,7 +7,8 @@ EXTENDS MonCommon
 
 Halves(tr) == SelectSeq(tr, LAMBDA r : r.k = "half")
 WF(tr) == SelectSeq(tr, LAMBDA r : r.k = "wf")
-TCalls(tr) == SelectSeq(tr, LAMBDA r : r.k = "tcall")
+\* (loop_inflate is the loop thread reading: it writes nothing)
+TCalls(tr) == SelectSeq(tr, LAMBDA r : r.k = "tcall" /\ r.m # "loop_inflate")
 NotTorn(tr) == LET h == Halves(tr) IN
                /\ \A i \in 1..Len(h) : h[i].part = 2 => (i > 1 /\ h[i - 1].part = 1 /\ h[i - 1].th = h[i].th)
                /\ \A i \in 1..Len(h) : h[i].part = 1 => (i < Len(h) /\ h[i + 1].part = 2 /\ h[i + 1].th = h[i].th)
